@@ -68,11 +68,13 @@ structure Dev (σ : Type) where
   /-- claim / release interface, SET_FEATURE(ENDPOINT_HALT), clear halt. -/
   ctl : σ → CtlReq → σ × Option UsbErr
 
+/-- One interaction with the outside world.  `timeoutMs` is the timeout handed to the
+transport call (`config.timeout_duration`; 0 for requests that take none). -/
 inductive Ev where
-  | send (bytes : Bytes) (err : Option UsbErr)
-  | recv (bufLen : Nat) (res : Except UsbErr Bytes)
+  | send (bytes : Bytes) (timeoutMs : Nat) (err : Option UsbErr)
+  | recv (bufLen : Nat) (timeoutMs : Nat) (res : Except UsbErr Bytes)
   | sleep (ms : Nat)
-  | ctl (req : CtlReq) (err : Option UsbErr)
+  | ctl (req : CtlReq) (timeoutMs : Nat) (err : Option UsbErr)
 
 /-! ### Handle state -/
 
@@ -126,20 +128,21 @@ def ackKindOf : Cmd.Cmd → Ack.ScdKind
   | .readMemStacked _ => .readMemStacked
   | .writeMemStacked _ => .writeMemStacked
 
-/-- `verify_ack`: status must be GenCP Success, then the request id must match. -/
-def verifyAck (h : Handle) (ack : Ack.AckPacket) : R Unit :=
+/-- `verify_ack`: status must be GenCP Success. -/
+def verifyAck (ack : Ack.AckPacket) : R Unit :=
   if ack.ccd.status.kind ≠ .genCp .success then .err .io
-  else if ack.ccd.requestId ≠ h.nextReqId then .err .io
   else .ok ()
 
 /-- The `while retry_count > 0 { … }` loop together with the final re-parse.
-`scdAs` is the typed SCD view `U::parse(raw_scd, ccd)`. -/
+`scdAs` is the typed SCD view `U::parse(raw_scd, ccd)`, `id` the request id of the command
+(`cmd.request_id()`).  An acknowledge carrying another request id is discarded (it belongs to
+an abandoned command) and costs one retry, like a pending acknowledge. -/
 def recvLoop {σ α} (dev : Dev σ) (p : Profile) (scdAs : Ack.AckPacket → Ack.R α)
-    (ackKind : Ack.ScdKind) : Nat → St σ → Out σ α
+    (ackKind : Ack.ScdKind) (id : Nat) : Nat → St σ → Out σ α
   | 0, s => (s, .err .io)          -- "… exceeds the retry_count"
   | retry + 1, s =>
     let (d, res) := dev.recv s.d s.h.bufLen
-    let s := ({ s with d := d } : St σ).push (.recv s.h.bufLen res)
+    let s := ({ s with d := d } : St σ).push (.recv s.h.bufLen s.h.cfg.timeoutMs res)
     match res with
     | .error e => (s, .err (.ofUsb e))
     | .ok bytes =>
@@ -149,7 +152,9 @@ def recvLoop {σ α} (dev : Dev σ) (p : Profile) (scdAs : Ack.AckPacket → Ack
       | .panic => (s, .panic)
       | .err e => (s, .err (.ofAck e))
       | .ok ack =>
-        match verifyAck s.h ack with
+        -- `if ack.request_id() != cmd.request_id() { retry_count -= 1; continue; }`
+        if ack.ccd.requestId ≠ id then recvLoop dev p scdAs ackKind id retry s else
+        match verifyAck ack with
         | .panic => (s, .panic)
         | .err e => (s, .err e)
         | .ok () =>
@@ -157,11 +162,9 @@ def recvLoop {σ α} (dev : Dev σ) (p : Profile) (scdAs : Ack.AckPacket → Ack
             match Ack.Pending.parse ack.rawScd ack.ccd with
             | .panic => (s, .panic)
             | .err e => (s, .err (.ofAck e))
-            | .ok ms => recvLoop dev p scdAs ackKind retry (s.push (.sleep ms))
+            | .ok ms => recvLoop dev p scdAs ackKind id retry (s.push (.sleep ms))
           else if ack.ccd.scdKind ≠ ackKind then (s, .err .io)
           else
-            -- `self.next_req_id = self.next_req_id.wrapping_add(1)`
-            let s := { s with h := { s.h with nextReqId := (s.h.nextReqId + 1) % 2 ^ 16 } }
             -- `AckPacket::parse(&self.buffer[0..recv_len]).unwrap().scd_as()?`
             match Ack.AckPacket.parse p bytes with
             | .ok ack2 =>
@@ -176,6 +179,10 @@ def sendCmd {σ α} (dev : Dev σ) (p : Profile) (scdAs : Ack.AckPacket → Ack.
     (s : St σ) (c : Cmd.Cmd) : Out σ α :=
   let id := s.h.nextReqId
   let cmdLen := c.cmdLen
+  -- `if cmd_len > self.config.maximum_cmd_length as usize { return Err(..) }`
+  if cmdLen > s.h.cfg.maxCmd then (s, .err .io) else
+  -- `self.next_req_id = self.next_req_id.wrapping_add(1)`: one id per command, whatever happens
+  let s : St σ := { s with h := { s.h with nextReqId := (s.h.nextReqId + 1) % 2 ^ 16 } }
   let ackLen := c.maximumAckLen
   let need := max cmdLen ackLen
   let s : St σ := if s.h.bufLen < need then { s with h := { s.h with bufLen := need } } else s
@@ -187,10 +194,10 @@ def sendCmd {σ α} (dev : Dev σ) (p : Profile) (scdAs : Ack.AckPacket → Ack.
     -- (always so for the commands `read`/`write` build: theorem); otherwise: artefact branch.
     if out.length ≠ cmdLen then (s, .panic) else
     let (d, r) := dev.send s.d out
-    let s := ({ s with d := d } : St σ).push (.send out r)
+    let s := ({ s with d := d } : St σ).push (.send out s.h.cfg.timeoutMs r)
     match r with
     | some e => (s, .err (.ofUsb e))
-    | none => recvLoop dev p scdAs (ackKindOf c) s.h.cfg.retry s
+    | none => recvLoop dev p scdAs (ackKindOf c) id s.h.cfg.retry s
 
 /-! ### `read` / `write` -/
 
@@ -377,7 +384,12 @@ def initializeConfig {σ} (dev : Dev σ) (p : Profile) (s : St σ) : Out σ Unit
 /-- one transport control request; error → `ControlError` through `From<u3v::Error>`. -/
 def ctlReq {σ} (dev : Dev σ) (s : St σ) (r : CtlReq) : Out σ Unit :=
   let (d, e) := dev.ctl s.d r
-  let s := ({ s with d := d } : St σ).push (.ctl r e)
+  -- only SET_FEATURE(ENDPOINT_HALT) (`set_halt`) takes a timeout
+  let t := match r with
+    | .setHaltIn => s.h.cfg.timeoutMs
+    | .setHaltOut => s.h.cfg.timeoutMs
+    | _ => 0
+  let s := ({ s with d := d } : St σ).push (.ctl r t e)
   match e with
   | some e => (s, .err (.ofUsb e))
   | none => (s, .ok ())
